@@ -1212,6 +1212,10 @@ class Interp:
 
     def learn_uids(self, sess, box, fresh_only=False):
         held = {x.uid for x in box.msgs if x.uid is not None}
+        if box.maybe or any(c is not None and m.uid is not None and c != m.uid for c, m in zip(sess.view or [], box.msgs)):
+            # the UIDs both sides know do not line up (or the model has lost track of a delivery that "may turn up"):
+            # positions mean nothing then - the observer binds instead
+            return
         for cell, m in zip(sess.view or [], box.msgs):
             if cell is not None and m.uid is None:
                 if cell in held:
